@@ -189,6 +189,58 @@ pub fn build_cases(ctx: &Ctx) -> Vec<Vec<String>> {
             }
         }
     }
+    // attributes as sequences (colliding identifiers Foo / foo): several new attributes at once
+    let attr_space = |w: usize| {
+        Space::new(SpaceCfg {
+            root: "r".into(),
+            enames: vec!["b".into()],
+            anames: vec!["Foo".into(), "foo".into(), "y".into()],
+            attr_seq: true,
+            max_attrs: 3,
+            depth: 2,
+            kinds: vec![],
+            both_empty: false,
+            root_attrs: true,
+            max_weight: w,
+        })
+    };
+    let sp = attr_space(ctx.tier.pick(5, 6));
+    for i in 0..sp.len() {
+        let c = vec![xml(&sp, i)];
+        if seen.insert(c.clone()) {
+            cases.push(c);
+        }
+    }
+    let sp = attr_space(3);
+    let docs: Vec<String> = (0..sp.len()).map(|i| xml(&sp, i)).collect();
+    for a in docs.iter().take(ctx.tier.pick(40, 400)) {
+        for b in &docs {
+            let c = vec![a.clone(), b.clone()];
+            if seen.insert(c.clone()) {
+                cases.push(c);
+            }
+        }
+    }
+    // wide elements: many struct-typed children with subtrees of different sizes
+    for width in [7usize, 8, 9, 12, 17] {
+        for variant in 0..3 {
+            let mut s = String::from("<r>");
+            for i in 0..width {
+                let size = match variant {
+                    0 => i,
+                    1 => width - i,
+                    _ => (i * 7) % width,
+                };
+                s.push_str(&format!("<c{} k=\"v\">", i));
+                for j in 0..size * 3 {
+                    s.push_str(&format!("<d{} k=\"v\"><e/></d{}>", j, j));
+                }
+                s.push_str(&format!("</c{}>", i));
+            }
+            s.push_str("</r>");
+            cases.push(vec![s]);
+        }
+    }
     // plain-name histories of three documents: state must not leak between calls either
     let plain = materialise(plain_cfg(2));
     for a in plain.iter().step_by(3) {
@@ -217,6 +269,11 @@ pub fn run(ctx: &Ctx) {
         |_| (0u64, 0u64, 0u64, 0u64, 0u64, 0u64),
         |acc, i| {
             let docs = &cases[i as usize];
+            // the order explorer is not run on the large wide-element cases (thousands of orders of
+            // one big map); they are covered by the free-running repetition below
+            if docs.iter().map(|d| d.len()).sum::<usize>() > 600 {
+                return;
+            }
             let r = explore_case(docs, bound, max_exec);
             acc.0 += r.executions;
             acc.1 += r.points;
@@ -330,7 +387,7 @@ pub fn run(ctx: &Ctx) {
     ctx.set("free_running_fresh_threads_per_case", json!(fresh + 1));
     ctx.set(
         "rule",
-        json!("cases = every document of weight <= W and every ordered pair (first of weight <= 2, second of weight <= 1 quick / 2 thorough) over root r, element p and each 2-subset (quick) / 3-subset (thorough) of a pool of names whose field identifiers collide (Foo/foo, type/r_type/p_type, a-b/a.b, ns:c/ns_c, a, b), plus triples of plain documents. states = executions of parse+extend+render (both sort options, both presets) under the order explorer: every HashMap iteration in library code is a choice point (<= 3 entries: all n! orders; more: adjacent transpositions and reversal), all assignments with at most `deviation_bound` non-default orders; transitions = choice points taken. Every case is then repeated on the hooks-off build (real HashMap): 3x in one thread, in fresh threads and in a second process"),
+        json!("cases = every document of weight <= W and every ordered pair (first of weight <= 2, second of weight <= 1 quick / 2 thorough) over root r, element p and each 2-subset (quick) / 3-subset (thorough) of a pool of names whose field identifiers collide (Foo/foo, type/r_type/p_type, a-b/a.b, ns:c/ns_c, a, b), plus documents and pairs whose elements carry attribute sequences over {Foo, foo, y}, wide elements (7..17 struct-typed children with subtrees of different sizes), and triples of plain documents. states = executions of parse+extend+render (both sort options, both presets) under the order explorer: every HashMap iteration in library code is a choice point (<= 3 entries: all n! orders; more: adjacent transpositions and reversal), all assignments with at most `deviation_bound` non-default orders; transitions = choice points taken. Every case is then repeated on the hooks-off build (real HashMap): 3x in one thread, in fresh threads and in a second process"),
     );
     ctx.assume("hash iteration order is modelled as an arbitrary permutation chosen per (map instance, key set); a divergence is reported as a violation only with the class `hash-order` when the shipped library (real HashMap) shows two different outputs in fresh threads");
 }
